@@ -164,14 +164,45 @@ func (c recCache[T]) Add(ctx context.Context, k string, v T) {
 
 var recMu gosync.Mutex
 
+// lockedCache is the persisted-query store of the servers under test: a map behind a (real)
+// mutex. graphql.MapCache is a bare map meant for single-goroutine tests; two requests in
+// flight on it would be the harness's own data race in the free-running -race pass.
+type lockedCache struct {
+	mu gosync.Mutex
+	m  map[string]string
+}
+
+func (c *lockedCache) Get(_ context.Context, k string) (string, bool) {
+	c.mu.Lock()
+	defer c.mu.Unlock()
+	v, ok := c.m[k]
+	return v, ok
+}
+
+func (c *lockedCache) Add(_ context.Context, k, v string) {
+	c.mu.Lock()
+	c.m[k] = v
+	c.mu.Unlock()
+}
+
+func (c *lockedCache) keys() []string {
+	c.mu.Lock()
+	defer c.mu.Unlock()
+	out := make([]string, 0, len(c.m))
+	for k := range c.m {
+		out = append(out, k)
+	}
+	return out
+}
+
 type server struct {
 	srv   *handler.Server
-	apq   graphql.MapCache[string]
+	apq   *lockedCache
 	qAdds []string
 }
 
 func newServer(prime map[string]string) *server {
-	s := &server{apq: graphql.MapCache[string]{}}
+	s := &server{apq: &lockedCache{m: map[string]string{}}}
 	hs := handschema.New(&handschema.Log{})
 	s.srv = handler.New(hs)
 	// each server gets its OWN configuration maps (a transport that writes into its
@@ -271,7 +302,7 @@ func (h *histInst) Body() {
 		pool = append(pool, string(b))
 	}
 	var apq []string
-	for k := range s.apq {
+	for _, k := range s.apq.keys() {
 		apq = append(apq, k[:8])
 	}
 	sort.Strings(apq)
